@@ -79,7 +79,7 @@ static std::vector<CheckDef> g_checks = {
           "key data, restarts, 8 runs with a message longer than 2^32 bytes; oracle = one-shot call of the same family; distinct_nontrivial: distinct (family, key size, direction, "
           "carried partial length, fragment residue, fragment class, nt, in-place) cells",
           { "the one-shot call of the same family is the oracle, not an object under test (that would be C02)" } },
-        { "C08", "exploration", { { "hashmgr", 3 }, { "stream", 4 }, { "oneshot", 4 }, { "l2mgr", 2 }, { "streamhuge", -12 } }, 40000, 4000000, 50, 900, false, false,
+        { "C08", "exploration", { { "hashmgr", 3 }, { "stream", 4 }, { "oneshot", 4 }, { "l2mgr", 2 }, { "streamhuge", -12 }, { "hashedge", -28 } }, 40000, 4000000, 50, 900, false, false,
           "cases: mixed batch of all workloads (hash managers, streaming objects, one-shot AES client, 12 huge stream cases) with every buffer placed end-flush, "
           "start-flush or mid-slot in a guard-paged arena (seeded), canaries around every range, checksums of every input/constant object; "
           "only the memory-map monitor decides; distinct_nontrivial: distinct workload states reached (union of the HashMgrSim, StreamSim "
@@ -224,6 +224,8 @@ static Sim *get_sim(const std::string &n)
                 s = make_hashjump_sim();
         else if (n == "hashfill")
                 s = make_hashfill_sim();
+        else if (n == "hashedge")
+                s = make_hashedge_sim();
         else if (n == "l2mgr")
                 s = make_l2mgr_sim();
         else if (n == "stream")
